@@ -186,6 +186,34 @@ def run(chk):
     chk.ob("C12-D2.local", "(library)", "%d const methods examined" % nconst, True, "")
     chk.ob("C12-D0.control", "(library)", "GPU cache writers found in const methods and classified device-only", control >= 5, "", "%d such methods" % control)
 
+    # ------------------------------------------------------------------ D5 the lazily built wavelet matrix is rebuilt only when its size is wrong
+    chk.rule("C12-D5.warm", "the documented weaker contract of the wavelet weight queries (const calls are safe once one of them has completed on the grid): every call of a routine that writes "
+                            "the cached matrix from a const method lies on the true edge of exactly one test, the comparison of the cached number of rows with the number of points - "
+                            "no further disjunct under which a warmed-up grid would rebuild the shared matrix again")
+    from tsg.flow import cond_edges_dominating
+    nwarm = 0
+    GW = "TasGrid::GridWavelet"
+    builders = {g.key for g in db.fns(GW + "::buildInterpolationMatrix")}
+    for f in db.all_functions(["SparseGrids/tsgGridWavelet.cpp", "SparseGrids/tsgGridWavelet.hpp"]):
+        if f.cls != GW or not f.d.get("const") or f.key in builders:
+            continue
+        for c in f.calls():
+            t = db.resolve(c)
+            if t is None or t.key not in builders:
+                continue
+            nwarm += 1
+            chk.saw(f)
+            # an enclosing test whose outcome gives no atom on this edge (true edge of a disjunction) is weaker than the size test
+            encl = [a for a in f.ancestors(c) if a.get("k") == "IfStmt"]
+            in_if = {q.get("id") for a in encl if a.get("cond") is not None for q in [a["cond"]] + list(walk(a["cond"]))}
+            edges = [(txt(strip(e)).replace(" ", ""), tr) for e, tr in cond_edges_dominating(f, c) if e.get("id") in in_if or (strip(e) or {}).get("id") in in_if]
+            size_tests = [(e, tr) for e, tr in edges if "inter_matrix.getNumRows()" in e and ("!=" in e or "==" in e)]
+            ok = len(encl) == 1 and len(edges) == 1 and len(size_tests) == 1 and (("!=" in size_tests[0][0]) == size_tests[0][1])
+            chk.ob("C12-D5.warm", f.key + f.sig, "lazy build of the cached matrix @%d" % c.get("l", 0), ok, f.loc(c),
+                   "guards on this path: %s; enclosing tests: %s" % (edges, [txt(strip(a.get("cond")))[:70] for a in encl]),
+                   "rebuilt exactly when the cached number of rows differs from the number of points")
+    chk.floor("C12-D5.warm", nwarm, 1, "lazy builds of the wavelet matrix in const methods")
+
     return ("Static rule discharge (R-EFFECT): transitive write sets over the resolved call graph of all const public methods of TasmanianSparseGrid; virtual calls fan out to the five grid classes; "
             "writes to mutable members are followed only along receivers rooted in the entry object (effects on call-local objects cannot be shared), writes to globals/function statics always; "
             "device-only code (suffix GPU, on_gpu()/useKernels() guards) is excluded because the property is stated for acceleration mode none. Absence of races inside std:: and result "
